@@ -443,13 +443,13 @@ func (tr *fnTrans) convert(in *ssa.Convert) {
 				app("=", kf, app("fp.roundToIntegral", "RTZ", x.S))))
 			tr.shadow[in] = kf
 		} else {
-			tr.uses["conv"] = true
+			_ = "conv axioms are opt-in (uses conv): identical conversion terms need no axioms"
 		}
 	case x.T == SInt && s == SF64:
 		if kf, ok := tr.shadow[in.X]; ok {
 			tr.setVal(in, SF64, kf)
 		} else {
-			tr.uses["conv"] = true
+			_ = "conv axioms are opt-in (uses conv): identical conversion terms need no axioms"
 			tr.setVal(in, SF64, app("i2f", x.S))
 		}
 	case x.T == SInt && s == SStr:
